@@ -85,6 +85,12 @@ def ext_table():
     keys = [k for k, _ in entries]
     if len(set(keys)) != len(keys):
         raise TranslateError("language_parsers(): duplicate key in table (HashMap::from keeps the last)")
+    # the model names a grammar after its language *module* (`c::parser()` -> "c_parser"), not after the local variable
+    # that happens to hold it, so renaming the variables of language_parsers() changes nothing
+    canon = {"javascript": "js_parser", "tsx": "typescript_tsx_parser"}
+    label = {v: canon.get(mod, mod + "_parser") for v, mod in decl.items()}
+    entries = [(k, label[v]) for k, v in entries]
+    decl = {label[v]: mod for v, mod in decl.items()}
     return entries, decl
 
 def detectors():
